@@ -210,7 +210,12 @@ func (k Keeper) Tx(ctx sdk.Context, caller, callee sdk.AccAddress, value uint64,
 
 // Send executes the send transaction from caller to callee with the given amount of tokens.
 func (k Keeper) Send(ctx sdk.Context, caller, callee sdk.AccAddress, coins sdk.Coins) error {
-	value := coins.AmountOf(k.sk.BondDenom(ctx)).Uint64()
+	bondDenom := k.sk.BondDenom(ctx)
+	// a contract can only receive the bond denomination: refuse the send instead of silently leaving out the rest
+	if !coins.IsEqual(sdk.NewCoins(sdk.NewCoin(bondDenom, coins.AmountOf(bondDenom)))) {
+		return sdkerrors.Wrapf(sdkerrors.ErrInvalidCoins, "only %s can be sent to a contract: %s", bondDenom, coins)
+	}
+	value := coins.AmountOf(bondDenom).Uint64()
 	if value <= 0 {
 		return sdkerrors.ErrInvalidCoins
 	}
